@@ -12,7 +12,7 @@ namespace DD
 theorem DynPostG.mono {α} {ext : Nat → Nat} {D D' : Tbl → α → Tbl → Prop} {m : Mgr} {r : α}
     {m' : Mgr} (h : DynPostG ext D m r m') (hd : D m.tbl r m'.tbl → D' m.tbl r m'.tbl) :
     DynPostG ext D' m r m' :=
-  ⟨h.inv, hd h.doc, h.enabled, h.names, h.held⟩
+  ⟨h.inv, hd h.doc, h.enabled, h.names, h.held, h.roots⟩
 
 theorem HeldX.neg {ext : Nat → Nat} {u : Int} (h : HeldX ext u) : HeldX ext (-u) := by
   unfold HeldX at *
